@@ -718,7 +718,9 @@ def concretize(e, limit=48):
             eng.conc.pop(key, None)
         n += 1
         if n > limit:
-            eng.hard_truncated = True
+            # a value the code needs concretely (list index, range bound, table lookup) ranges over more values than are enumerated
+            eng.truncated = True
+            eng.soft_reasons.add(f"a symbolic index or count ranges over more than {limit} values (enumeration cut)")
             raise Abort("cut")
 
 
